@@ -301,11 +301,14 @@ func (c *c12run) kaNode(t *testing.T, style string, n, i int, allPairs, bothWays
 	pre := fmt.Sprintf("ka/%s/n=%d/i=%d/", style, n, i)
 	node := c12NodeClass(n, i)
 	if n <= 3 && i == 0 && style == "mixed" {
-		var ks []string
-		for _, v := range cl {
-			ks = append(ks, fmt.Sprintf("%s=%q", v.name, v.key))
+		var names, ks []string
+		for a, v := range cl {
+			names = append(names, v.name)
+			if a%9 == 0 {
+				ks = append(ks, fmt.Sprintf("%s=%q", v.name, v.key))
+			}
 		}
-		r.Sample(map[string]any{"case": pre + "cluster", "keys": ks})
+		r.Sample(map[string]any{"case": pre + "cluster", "size": len(cl), "variants": strings.Join(names, " "), "some_keys": ks})
 	}
 
 	// honest trees, one per member of the cluster; pairwise different roots
